@@ -211,8 +211,10 @@ def enumerate_sites(prog) -> List[NameSite]:
             elif isinstance(ent, ClassInfo) and ent.qname in RULE_CLASSES:
                 kind, cls = "rule", ent.qname
                 arg_exprs = list(call.args)
-            elif isinstance(call.func, ast.Name) and call.func.id in params and call.args and ent is None and \
-                    not _is_instance_param(prog, mod, fi, call.func.id):
+            elif isinstance(call.func, ast.Name) and call.func.id in params and len(call.args) == 1 and not call.keywords \
+                    and ent is None and not _is_instance_param(prog, mod, fi, call.func.id):
+                # (one argument: an identifier class is built from its value; `other(state, symbol)` is a transition
+                # function being applied)
                 # constructor handed in as a parameter: type_generating(prefix)
                 kind, cls = "ctor-param", call.func.id
                 arg_exprs = call.args[:1]
